@@ -108,14 +108,36 @@ def nproc():
     return max(1, min(16, n))
 
 
+_CHUNKS = None
+
+
+def _do_static(w):
+    """Worker w processes chunks w, w+P, w+2P, ... of the (inherited) list:
+    the sequence of items each worker sees is a deterministic function of
+    the item list, so a violation that depends on what the same process did
+    before (state leaking between instances) fails the same way every run."""
+    procs, deadline = _STATIC
+    t = Tally()
+    for j in range(w, len(_CHUNKS), procs):
+        if deadline and time.time() > deadline:
+            t.c["deadline_hit"] = 1
+            break
+        t.merge(_do_chunk(_CHUNKS[j]), vcap=400)
+    return t
+
+
+_STATIC = None
+
+
 def run(work, items, chunksize=20, procs=None, initfn=None, progress=None,
         deadline=None):
     """Apply work(item, tally) to all items in parallel; return merged Tally.
-    `deadline` (time.time() value): stop feeding new chunks after it; the
-    tally then carries c['deadline_hit']=1 and the caller must report a cap."""
+    Chunks are dealt round-robin to long-lived fork workers (static schedule).
+    `deadline` (time.time() value): stop after it; the tally then carries
+    c['deadline_hit']=1 and the caller must report a cap."""
+    global _CHUNKS, _STATIC
     procs = procs or nproc()
     total = Tally()
-    t0 = time.time()
     if procs == 1:
         _init(work, initfn)
         for ch in chunks(items, chunksize):
@@ -124,25 +146,15 @@ def run(work, items, chunksize=20, procs=None, initfn=None, progress=None,
                 total.c["deadline_hit"] = 1
                 break
         return total
+    _CHUNKS = list(chunks(items, chunksize))
+    _STATIC = (procs, deadline)
     ctx = mp.get_context("fork")
-
-    def feeder():
-        for ch in chunks(items, chunksize):
-            if deadline and time.time() > deadline:
-                total.c["deadline_hit"] = 1
-                return
-            yield ch
-
-    with ctx.Pool(procs, initializer=_init, initargs=(work, initfn)) as pool:
-        n = 0
-        for t in pool.imap_unordered(_do_chunk, feeder()):
-            total.merge(t)
-            n += 1
-            if progress and n % progress == 0:
-                print("  .. %d chunks, %.0fs, %s" % (
-                    n, time.time() - t0,
-                    {k: v for k, v in sorted(total.c.items())[:6]}),
-                    flush=True)
+    try:
+        with ctx.Pool(procs, initializer=_init, initargs=(work, initfn)) as pool:
+            for t in pool.imap_unordered(_do_static, range(procs), chunksize=1):
+                total.merge(t)
+    finally:
+        _CHUNKS = None
     return total
 
 
